@@ -126,11 +126,11 @@ bool FetchDomain(util::Deserializer &parser, std::string &domain)
             oss << '.';
         first = false;
 
-        char str[len + 1];
+        //! 标签是定长的字节串，不是C字串，其中可能含有'\0'
+        char str[len];
         if (!reader.fetch(str, len))
             return false;
-        str[len] = '\0';
-        oss << str;
+        oss.write(str, len);
     }
 
     if (!is_jumped)
